@@ -404,7 +404,27 @@ def t_sum(t):
         return t_sum(t[2])
     if op == "shift":
         return t_sum(t[2]) + t[1] * t_len(t[2])
+    if op == "add":
+        return t_sum(t[1]) + t_sum(t[2])
+    if op == "gather" and is_perm_term(t[2]) and t_len(t[1]) == t_len(t[2]):
+        # PERM-SUM: re-indexing along a permutation of all positions preserves the sum
+        return t_sum(t[1])
     return Poly.atom(("sum", t))
+
+
+def is_perm_term(t):
+    """Terms that denote a permutation of 0..len (structural patterns only)."""
+    if t[0] == "arange" and not t[1].t:
+        return True
+    if t[0] == "argsort":
+        return True
+    if t[0] == "mulcadd":
+        r, b, q = t[1], t[2], t[3]
+        if r[0] == "rem" and q[0] == "quot" and r[1] == q[1] and r[2] == q[2]:
+            i, a = r[1], r[2]
+            if i[0] == "arange" and not i[1].t and i[2] == as_poly(a) * as_poly(b):
+                return True     # the transposition permutation of an a x b matrix
+    return False
 
 
 def term_facts(st, t):
@@ -462,6 +482,9 @@ def ubs(st, t):
         out.append(t[2])
     elif op == "inj":
         out.append(t_sum(t[1]))
+    if op in ("v", "gather", "concat", "repeat", "slice", "emap", "segsum"):
+        # naturals: every element is <= the sum of all elements
+        out.append(t_sum(t) + 1)
     import rules_terms
     for (rule, b) in rules_terms.extra_ubs(st, t):
         rules_terms.USES[rule] = rules_terms.USES.get(rule, 0) + 1
@@ -499,10 +522,24 @@ def prove_bound(st, t, B, depth=0):
         # a filler that is itself an element of the scattered array
         if prove_bound(st, t[1], B, depth + 1):
             return True
-    for b in ubs(st, t):
+    cand = ubs(st, t)
+    for b in cand:
         if st.ge(B, b):
             return True
-    if st.eq(t_len(t), 0):
+    n = t_len(t)
+    if st.eq(n, 0):
+        return True
+    # case split: the array is empty (nothing to show) or has at least one element
+    if not n.is_const() and cand:
+        from poly import Lin, entails
+        L = Lin(st.lin.facts + [("ge", n - 1)], None)
+        for b in cand:
+            if entails(L, "ge", B - b):
+                return True
+    import rules_terms
+    r = rules_terms.trusted_bound(st, t, B)
+    if r:
+        rules_terms.USES[r] = rules_terms.USES.get(r, 0) + 1
         return True
     return False
 
@@ -595,15 +632,34 @@ def _mk_gather(st, x, idx, depth=0):
                 if st.eq(off, idx[2]):
                     return mk_concat(acc)
     if x[0] == "concat":
-        first = x[1]
-        rest = mk_concat(list(x[2:]))
-        n0 = t_len(first)
-        if prove_bound(st, idx, n0):
-            return mk_gather(st, first, idx, depth + 1)
-        if idx[0] == "shift" and st.ge(idx[1], n0):
-            return mk_gather(st, rest, mk_shift(idx[1] - n0, idx[2]), depth + 1)
-        if idx[0] == "arange" and st.ge(idx[1], n0):
-            return mk_gather(st, rest, mk_arange(idx[1] - n0, idx[2] - n0), depth + 1)
+        parts = list(x[1:])
+        # the indices fall into a proper prefix of the parts
+        pre = Poly.const(0)
+        for k in range(1, len(parts)):
+            pre = pre + t_len(parts[k - 1])
+            if prove_bound(st, idx, pre):
+                return mk_gather(st, mk_concat(parts[:k]), idx, depth + 1)
+        # the indices are offset past a prefix of the parts
+        off = None
+        if idx[0] == "shift":
+            off = idx[1]
+        elif idx[0] == "arange":
+            off = idx[1]
+        if off is not None:
+            pre = Poly.const(0)
+            drop = 0
+            for k in range(len(parts) - 1):
+                nxt = pre + t_len(parts[k])
+                if st.ge(off, nxt):
+                    pre = nxt
+                    drop = k + 1
+                else:
+                    break
+            if drop:
+                rest = mk_concat(parts[drop:])
+                if idx[0] == "shift":
+                    return mk_gather(st, rest, mk_shift(idx[1] - pre, idx[2]), depth + 1)
+                return mk_gather(st, rest, mk_arange(idx[1] - pre, idx[2] - pre), depth + 1)
     if x[0] == "shift":
         # gather(c + y, idx) = c + gather(y, idx)
         return mk_shift(x[1], mk_gather(st, x[2], idx, depth + 1))
@@ -649,8 +705,10 @@ def normalise(st, t, depth=0):
     if not isinstance(t, tuple) or depth > 30:
         return t
     op = t[0]
-    if op in ("v", "empty"):
+    if op == "empty":
         r = t
+    elif op == "v":
+        r = EMPTY if _known_empty(st, t) else t
     elif op == "concat":
         parts = [normalise(st, p, depth + 1) for p in t[1:]]
         parts = [p for p in parts if p[0] == "empty" or not _known_empty(st, p)]
@@ -659,6 +717,8 @@ def normalise(st, t, depth=0):
         r = mk_shift(t[1], normalise(st, t[2], depth + 1))
     elif op == "gather":
         r = mk_gather(st, normalise(st, t[1], depth + 1), normalise(st, t[2], depth + 1))
+        if r[0] == "gather" and _known_empty(st, r):
+            r = EMPTY
     elif op == "arange":
         r = t
     elif op in ("Fmap", "Fsizes"):
@@ -686,7 +746,17 @@ def _known_empty(st, t):
         return True
     if n.is_const():
         return False
-    return st.eq(n, 0)
+    if st.eq(n, 0):
+        sm = t_sum(t)
+        if not sm.is_const():
+            st.add_eq(sm)
+        return True
+    # natural numbers below an upper bound that is <= 0: there are none
+    for b in ubs(st, t):
+        if st.ge(0, b):
+            st.add_eq(n)
+            return True
+    return False
 
 
 def term_size(t):
